@@ -1,0 +1,8 @@
+//go:build verif
+
+package run
+
+// ReloadForVerif performs a reload synchronously, as the SIGHUP handler does
+func (orc *ReloadableOrchestrator) ReloadForVerif() {
+	orc.reload()
+}
